@@ -208,25 +208,25 @@ Proof.
     rewrite E1. replace (period =? 0) with false by (symmetry; apply Z.eqb_neq; lia).
     replace (Z.max 1000 (Z.min period c_MaxHeartbeatInterval)) with period by (unfold c_MaxHeartbeatInterval; lia).
     set (offset1 := if off =? 4294967295 then ss_offset (x_hb x) else off).
-    destruct (negb (ss_period (x_hb x) =? period) || negb (ss_offset (x_hb x) =? offset1)) eqn:Chg.
+    set (changed := negb (ss_period (x_hb x) =? period) || negb (ss_offset (x_hb x) =? offset1)).
+    assert (HB: forall p, 1000 <= p <= 60000 -> firstn 2 (m_data (heartbeat_msg (dev_src r i) p 255)) = le_bytes 2 (p / 10)).
+    { intros p Hp. unfold heartbeat_msg. replace (p >? c_MaxHeartbeatInterval) with false by (symmetry; rewrite Z.gtb_ltb; apply Z.ltb_ge; unfold c_MaxHeartbeatInterval; lia).
+      cbn [m_data]. rewrite (Z.mod_small (p / 10)) by (split; [apply Z.div_pos; lia|apply Z.div_lt_upper_bound; lia]). reflexivity. }
+    destruct (changed || (ss_next (x_hb x) =? ss_disabled)) eqn:Go.
     + destruct (millis64 r) as [rc t] eqn:M.
       assert (RX: rx_dev rc = rx_dev r /\ rn rc = rn r) by (unfold millis64 in M; destruct (w64 r); injection M as <- _; split; reflexivity).
       destruct RX as [RX RN].
-      assert (G: get_devx (with_devinfo_changed (with_devx rc i
-                   {| x_pend_claim := x_pend_claim x; x_pend_prod := x_pend_prod x; x_pend_conf := x_pend_conf x;
-                      x_hb := ss_update_next t (r_sync rc) {| ss_next := ss_next (x_hb x); ss_offset := offset1; ss_period := period |};
-                      x_hb_seq := x_hb_seq x; x_rx := x_rx x |})) i =
-                 {| x_pend_claim := x_pend_claim x; x_pend_prod := x_pend_prod x; x_pend_conf := x_pend_conf x;
+      set (x' := {| x_pend_claim := x_pend_claim x; x_pend_prod := x_pend_prod x; x_pend_conf := x_pend_conf x;
                     x_hb := ss_update_next t (r_sync rc) {| ss_next := ss_next (x_hb x); ss_offset := offset1; ss_period := period |};
                     x_hb_seq := x_hb_seq x; x_rx := x_rx x |}).
-      { unfold get_devx, with_devinfo_changed, with_devx, znth, zset. cbn [rx_dev]. apply nth_set_nth. rewrite RX. exact Hx. }
-      cbn [action_msgs]. rewrite G. cbn [x_hb]. unfold ss_update_next. cbn [ss_period ss_offset].
+      set (r' := if changed then with_devinfo_changed (with_devx rc i x') else with_devx rc i x').
+      assert (G: get_devx r' i = x' /\ dev_src r' i = dev_src r i).
+      { unfold r'. destruct changed; unfold get_devx, dev_src, with_devinfo_changed, with_devx, znth, zset; cbn [rx_dev rn]; rewrite RN;
+          (split; [apply nth_set_nth; rewrite RX; exact Hx|reflexivity]). }
+      destruct G as [G GS]. cbn [action_msgs]. rewrite G, GS. unfold x'. cbn [x_hb]. unfold ss_update_next. cbn [ss_period ss_offset].
       replace (period =? 0) with false by (symmetry; apply Z.eqb_neq; lia). cbn [ss_period ss_offset].
-      repeat split.
-      unfold heartbeat_msg. replace (period >? c_MaxHeartbeatInterval) with false by (symmetry; rewrite Z.gtb_ltb; apply Z.ltb_ge; unfold c_MaxHeartbeatInterval; lia).
-      cbn [m_data]. rewrite (Z.mod_small (period / 10)) by (split; [apply Z.div_pos; lia|apply Z.div_lt_upper_bound; lia]). reflexivity.
-    + apply orb_false_iff in Chg as [C1 C2]. apply negb_false_iff in C1, C2. apply Z.eqb_eq in C1, C2. fold x. cbn [action_msgs]. fold x. rewrite C1.
-      repeat split; [exact C2|].
-      unfold heartbeat_msg. replace (period >? c_MaxHeartbeatInterval) with false by (symmetry; rewrite Z.gtb_ltb; apply Z.ltb_ge; unfold c_MaxHeartbeatInterval; lia).
-      cbn [m_data]. rewrite (Z.mod_small (period / 10)) by (split; [apply Z.div_pos; lia|apply Z.div_lt_upper_bound; lia]). reflexivity.
+      split; [reflexivity|]. split; [reflexivity|]. split; [reflexivity|]. apply HB, Hper.
+    + apply orb_false_iff in Go as [Chg _]. unfold changed in Chg. apply orb_false_iff in Chg as [C1 C2]. apply negb_false_iff in C1, C2. apply Z.eqb_eq in C1, C2.
+      fold x. cbn [action_msgs]. fold x. rewrite C1.
+      split; [reflexivity|]. split; [exact C2|]. split; [reflexivity|]. apply HB, Hper.
 Qed.
